@@ -228,10 +228,11 @@ def extend_schema(
     ]
 
     # Cast is safe as type defs will always lead to named types and not wrapped types
+    # All known types are carried over, not only the ones which are extended or
+    # reachable from the root types (e.g. object types only known as
+    # implementations of an interface).
     types = [
-        cast(NamedType, builder.extend_type(t))
-        for t in schema.types.values()
-        if t.name in type_exts
+        cast(NamedType, builder.extend_type(t)) for t in schema.types.values()
     ] + [
         cast(NamedType, builder.extend_type(builder.build_type(t)))
         for t in type_defs.values()
